@@ -95,6 +95,14 @@ CLAIM = ("Every generated overlap/trim round trip, map_overlap call and sliding_
 LEVEL_NOTE = "NumPy is the reference; stencil functions are harness code whose window never exceeds depth"
 TECHNIQUE = "runtime monitoring: NumPy differential (pad-apply-trim reference) over generated inputs and complete small chunking spaces"
 
+OMIT = "<boundary argument omitted>"
+# Found by the parameter audit on the unchanged tree; fix proposed in fixes_ready/C26_01_map_overlap_new_axis_depth_shift.patch
+PENDING = {
+    "map:new_axis>=input-rank:shape": "map_overlap reduces new_axis modulo the rank of the INPUT: new_axis=x.ndim (append) is taken for 0, the result is trimmed on the wrong axes",
+    "map:new_axis>=input-rank:values": "same mechanism, the wrongly trimmed result happens to have the expected shape",
+    "map:new_axis-before-several-axes:shape": "map_overlap shifts the per-axis depths upwards in ascending order: with two or more axes behind a new axis a depth is overwritten before it is moved, the result is not trimmed / trimmed on the wrong axis",
+    "map:new_axis-before-several-axes:values": "same mechanism, the wrongly trimmed result happens to have the expected shape",
+}
 BKINDS = ("none", "periodic", "reflect", "nearest", "const")
 PADMODE = {"periodic": "wrap", "reflect": "symmetric", "nearest": "edge"}
 
@@ -124,7 +132,11 @@ def cases(tier, seed):
                    "seed": 4, "window": w, "axis": 0, "auto": True}
     # ---- random part ------------------------------------------------------------------------------------
     n = 4000 if tier == "quick" else 90000
-    for _ in range(n):
+    rx = random.Random(seed * 6151 + 2626)          # parameter-audit families: own stream, the older stream is unchanged
+    every = 5 if tier == "quick" else 6
+    for k in range(n):
+        if k % every == every - 1:
+            yield _rand_extra(rx)
         kind = rng.choice(("ident", "ident", "map", "map", "map", "map2", "swv", "swv"))
         if kind == "swv":
             yield _rand_swv(rng)
@@ -206,6 +218,147 @@ def _rand_overlap(rng, kind):
             case["align"] = False
             case["ychunks"] = case["chunks"][nd - len(yshape):]
         case["listspec"] = len(yshape) != nd or rng.random() < 0.5
+    return case
+
+
+# ---- parameter-audit families -----------------------------------------------------------------------------
+EXTRA = ("axes", "axes", "axes", "multi", "multi", "deep", "big", "big", "dtypes", "plain", "legacy")
+
+
+def _long_comp(rng, n, small=0):
+    k = rng.randint(1, 5)
+    cuts = set(rng.sample(range(1, n), k))
+    for _ in range(small):                       # short chunks (shorter than the depth) next to long ones
+        c = rng.randrange(1, n - 3)
+        cuts.update((c, c + rng.randint(1, 3)))
+    b = [0] + sorted(cuts) + [n]
+    return tuple(y - x for x, y in zip(b, b[1:]))
+
+
+def _rand_extra(rng):
+    fam = rng.choice(EXTRA)
+    if fam == "axes":
+        # map_overlap(..., drop_axis=, new_axis=): a dropped axis either has depth 0 (any chunking: the function sees the
+        # blocks of that axis concatenated) or is one chunk
+        while True:
+            case = _rand_overlap(rng, "map")
+            if len(case["shape"]) >= 2 or rng.random() < 0.4:
+                break
+        nd = len(case["shape"])
+        case.update(trim=True, family="axes")
+        ndrop = rng.choice((0, 1, 1, 2)) if nd >= 2 else 0
+        ndrop = min(ndrop, nd - 1)
+        drop = sorted(rng.sample(range(nd), ndrop))
+        for ax in drop:
+            if len(case["chunks"][ax]) > 1:
+                case["depth"][ax] = 0
+                case["fn"]["radii"][ax] = [0, 0]
+        if all(_dmax(d) == 0 for d in case["depth"]):
+            keep = [ax for ax in range(nd) if ax not in drop]
+            ax = rng.choice(keep)
+            case["depth"][ax] = 1
+            case["fn"]["radii"][ax] = [1, 1]
+        ints = all(isinstance(d, int) for d in case["depth"])
+        if case["dform"] == "int" and not (ints and len(set(case["depth"])) == 1):
+            case["dform"] = "tuple"
+        nout = nd - ndrop
+        nnew = rng.choice((0, 1, 1, 2)) if ndrop else rng.choice((1, 1, 2))
+        new = sorted(rng.sample(range(nout + nnew), nnew))
+        case["axes"] = {"drop": drop, "new": new, "dropform": rng.choice(("int", "list", "neg")) if ndrop == 1 else rng.choice(("list", "neg")),
+                        "newform": rng.choice(("int", "list")) if nnew == 1 else "list"}
+        return case
+    if fam == "multi":
+        # several inputs: the array of highest rank is NOT the first one, and / or three arrays
+        case = _rand_overlap(rng, "map2")
+        case["family"] = "multi"
+        case["swap"] = rng.random() < 0.7
+        if rng.random() < 0.5 or not case["swap"]:
+            ysh = case["yshape"]
+            case["zchunks"] = case["ychunks"] if not case["align"] else _chunks_desc(_capped_chunks(rng, tuple(ysh), cap=24))
+        return case
+    if fam == "deep":
+        # depth larger than the axis: documented ValueError ("larger than your array"), or the right values
+        case = _rand_overlap(rng, rng.choice(("ident", "map")))
+        case["family"] = "deep"
+        ax = rng.randrange(len(case["shape"]))
+        case["depth"][ax] = case["shape"][ax] + rng.randint(1, 2)
+        if case["boundary"][ax] == "none" and rng.random() < 0.7:
+            case["boundary"][ax] = rng.choice(("periodic", "reflect", "nearest"))
+        if case["dform"] == "int":
+            case["dform"] = "tuple"
+        if case["bform"] == "scalar":
+            case["bform"] = "tuple"
+        if "fn" in case:
+            case["fn"]["radii"][ax] = [1, 1]
+            case["trim"] = True
+        return case
+    if fam == "big":
+        # axes of 300-1000 cells, chunks > 255 elements next to chunks shorter than the depth, depths up to 40
+        n = rng.choice((300, 520, 777, 1000))
+        kind = rng.choice(("ident", "map", "map", "swv"))
+        two = rng.random() < 0.4
+        m = rng.randint(2, 6)
+        long_ax = rng.randrange(2) if two else 0
+        shape = ((n, m) if long_ax == 0 else (m, n)) if two else (n,)
+        d = rng.choice((1, 5, 17, 40))
+        chunks = [None] * len(shape)
+        for ax, k in enumerate(shape):
+            chunks[ax] = _long_comp(rng, k, small=rng.choice((0, 1, 2))) if ax == long_ax else A.rand_comp(rng, k, rng.choice(("one", "two", "regular")))
+        if kind == "swv":
+            return {"kind": "swv", "family": "big", "shape": list(shape), "chunks": _chunks_desc(chunks), "dtype": rng.choice(("int64", "int8", "float64")),
+                    "seed": rng.randrange(2 ** 31), "window": d + 1, "axis": long_ax - (len(shape) if rng.random() < 0.3 else 0),
+                    "auto": rng.random() < 0.7}
+        b = rng.choice(BKINDS)
+        depth, boundary = [0] * len(shape), ["none"] * len(shape)
+        depth[long_ax] = d
+        boundary[long_ax] = ["const", 7] if b == "const" else b
+        if two and rng.random() < 0.5:
+            o = 1 - long_ax
+            depth[o], boundary[o] = 1, rng.choice(("none", "periodic", "reflect", "nearest"))
+        if b == "none" and rng.random() < 0.5:
+            depth[long_ax] = [rng.choice((0, 3, d)), d]
+        case = {"kind": kind, "family": "big", "shape": list(shape), "chunks": _chunks_desc(chunks), "dtype": rng.choice(("int64", "float64", "int32")),
+                "seed": rng.randrange(2 ** 31), "depth": depth, "dform": rng.choice(("tuple", "dict")), "boundary": boundary,
+                "bform": rng.choice(("tuple", "dict")), "allow_rechunk": rng.random() < 0.85}
+        if kind == "ident":
+            case["api"] = rng.choice(("trim_internal", "trim_overlap"))
+            return case
+        case["fn"] = {"kind": rng.choice(("wsum", "max", "min")), "radii": [list(_lr(x)) if rng.random() < 0.6 else [rng.randint(0, _lr(x)[0]), rng.randint(0, _lr(x)[1])]
+                                                                         for x in depth], "wseed": rng.randrange(1000)}
+        case.update(api=rng.choice(("func", "method")), trim=True, passdtype=False)
+        return case
+    if fam == "dtypes":
+        case = _rand_overlap(rng, "ident")
+        case["family"] = "dtypes"
+        case["dtype"] = dt = rng.choice(("bool", "complex128", "datetime64[ns]", "float32", "uint8", "U2"))
+        fix = []
+        for b in case["boundary"]:
+            if isinstance(b, list):
+                b = rng.choice(("nearest", "reflect")) if dt in ("datetime64[ns]", "U2") else ["const", 1 if dt == "bool" else 2]
+            fix.append(b)
+        case["boundary"] = fix
+        if case["bform"] == "scalar" and not all(b == fix[0] for b in fix):
+            case["bform"] = "tuple"
+        return case
+    if fam == "plain":
+        # depth=None / 0 (plain map_blocks), boundary argument omitted, meta= given
+        case = _rand_overlap(rng, "map")
+        case["family"] = "plain"
+        sub = rng.choice(("nodepth", "noboundary", "meta", "meta"))
+        case["sub"] = sub
+        if sub == "nodepth":
+            case["depth"] = [0] * len(case["shape"])
+            case["fn"]["radii"] = [[0, 0]] * len(case["shape"])
+            case["dform"] = rng.choice(("none", "int"))
+            case["trim"] = True
+        elif sub == "noboundary":
+            case["boundary"] = ["none"] * len(case["shape"])
+            case["bform"] = "omit"
+            case["trim"] = True
+        return case
+    # deprecated signature map_overlap(x, func, depth, boundary, trim)
+    case = _rand_overlap(rng, "map")
+    case.update(family="legacy", api="legacy", trim=True, passdtype=False)
     return case
 
 
@@ -325,6 +478,41 @@ class Two:
         return self.sx(bx) + 2 * self.sy(by)
 
 
+class AxFn:
+    """f(b) = stencil(b) summed over the dropped axes, with length-1 axes inserted at the `new` positions."""
+
+    def __init__(self, st, drop, new, ndim):
+        self.st, self.drop, self.new, self.ndim = st, tuple(drop), tuple(sorted(new)), ndim
+
+    def __call__(self, b):
+        out = self.st(b)
+        if np.ndim(out) != self.ndim:
+            return out
+        if self.drop:
+            out = out.sum(axis=self.drop)
+        for a in self.new:
+            out = np.expand_dims(out, a)
+        return out
+
+
+class Swapped:
+    def __init__(self, fn):
+        self.fn = fn
+
+    def __call__(self, a, b, *rest):
+        return self.fn(b, a, *rest)
+
+
+class Three:
+    """f(bx, by, bz) = Sx(bx) + 2 * Sy(by) + 3 * Sz(bz)"""
+
+    def __init__(self, two, sz):
+        self.two, self.sz = two, sz
+
+    def __call__(self, bx, by, bz):
+        return self.two(bx, by) + 3 * self.sz(bz)
+
+
 def _pad(x, depth, boundary):
     """Pad the whole array axis by axis (axis 0 first, as np.pad does) with each axis' boundary mode."""
     p = x
@@ -360,6 +548,8 @@ def _bval(b):
 
 def _depth_arg(depth, form, rng):
     dv = [d if isinstance(d, int) else tuple(d) for d in depth]
+    if form == "none":
+        return None
     if form == "int":
         return dv[0]
     if form == "tuple":
@@ -370,6 +560,8 @@ def _depth_arg(depth, form, rng):
 
 def _boundary_arg(boundary, form, rng):
     bv = [_bval(b) for b in boundary]
+    if form == "omit":
+        return OMIT
     if form == "scalar":
         if bv[0] == "none" and rng.random() < 0.5:
             return None
@@ -384,6 +576,14 @@ def _data(seed, shape, dtype):
     n = int(np.prod(shape))
     if dtype == "bool":
         return (r.integers(0, 2, n) > 0).reshape(shape)
+    if dtype == "U2":
+        return np.array(["", "a", "bc", "d", "ef"], dtype="U2")[r.integers(0, 5, n)].reshape(shape)
+    if dtype == "datetime64[ns]":
+        return (r.integers(0, 10, n) * 10 ** 9).astype(dtype).reshape(shape)
+    if dtype == "complex128":
+        return (r.integers(-3, 4, n) + 1j * r.integers(-3, 4, n)).astype(dtype).reshape(shape)
+    if dtype == "uint8":
+        return r.integers(0, 20, n).astype(dtype).reshape(shape)
     if dtype.startswith("int"):
         return r.integers(-9, 10, n).astype(dtype).reshape(shape)
     a = (r.integers(-16, 17, n) / 4).astype(dtype)
@@ -403,6 +603,22 @@ def _features(case):
         f.append("chunk<depth")
     if len(case["shape"]) > 1:
         f.append("nd>1")
+    fam = case.get("family")
+    if fam == "axes":
+        f.extend(n for n, on in (("drop_axis", case["axes"]["drop"]), ("new_axis", case["axes"]["new"])) if on)
+    elif fam == "multi":
+        f.extend(n for n, on in (("highest-rank-not-first", case.get("swap") and len(case["yshape"]) != len(case["shape"])),
+                                 ("3-arrays", "zchunks" in case)) if on)
+    elif fam == "deep":
+        f.append("depth>axis")
+    elif fam == "big":
+        f.append("chunk>255")
+    elif fam == "dtypes":
+        f.append("dtype=" + case["dtype"])
+    elif fam == "plain":
+        f.append({"nodepth": "depth=None|0", "noboundary": "boundary-omitted", "meta": "meta="}[case["sub"]])
+    elif fam == "legacy":
+        f.append("legacy-signature")
     return "&".join(f)
 
 
@@ -451,6 +667,14 @@ def _run_overlap(case, ctx):
     if asym:
         ctx.count("asymmetric_depth")
     feat = _features(case)
+    if case.get("axes") and case["axes"]["new"]:
+        # one label per mechanism of the new_axis bookkeeping in map_overlap (see PENDING); a single new axis with at most
+        # one axis behind it keeps the detailed feature label
+        new, nkept = case["axes"]["new"], len(shape) - len(case["axes"]["drop"])
+        if any(a >= len(shape) for a in new):
+            feat = "new_axis>=input-rank"
+        elif len(new) >= 2 or nkept - new[0] >= 2:
+            feat = "new_axis-before-several-axes"
 
     # ---- reference -------------------------------------------------------------------------------------
     try:
@@ -466,7 +690,21 @@ def _run_overlap(case, ctx):
                 sy = Stencil(dict(case["fn"], kind="wsum", wseed=case["fn"]["wseed"] + 1), offset=off)
                 fn = Two(st, sy)
                 py = _pad(y, depth[off:], boundary[off:])
-                expected = _trim(fn(p, py), depth, boundary)
+                if "zchunks" in case:
+                    z = _data(case["seed"] + 2, yshape, case["dtype"])
+                    fn = Three(fn, Stencil(dict(case["fn"], kind="wsum", wseed=case["fn"]["wseed"] + 2), offset=off))
+                    expected = _trim(fn(p, py, _pad(z, depth[off:], boundary[off:])), depth, boundary)
+                else:
+                    expected = _trim(fn(p, py), depth, boundary)
+            elif case.get("axes"):
+                axes = case["axes"]
+                fn = AxFn(st, axes["drop"], axes["new"], len(shape))
+                dout = [d for ax, d in enumerate(depth) if ax not in axes["drop"]]
+                bout = [b for ax, b in enumerate(boundary) if ax not in axes["drop"]]
+                for a in axes["new"]:
+                    dout.insert(a, 0)
+                    bout.insert(a, "none")
+                expected = _trim(fn(p), dout, bout)
             else:
                 fn = st
                 expected = _trim(fn(p), depth, boundary)
@@ -495,8 +733,20 @@ def _run_overlap(case, ctx):
                 f = SelfTrim(fn, [_dmax(d) if b != "none" else 0 for d, b in zip(depth, boundary)])
             if case.get("passdtype"):
                 kw["dtype"] = expected.dtype
+            if barg is OMIT:
+                del kw["boundary"]
+            if case.get("sub") == "meta":
+                kw["meta"] = np.empty((0,) * expected.ndim, dtype=expected.dtype)
+            axes = case.get("axes")
+            if axes and axes["drop"]:
+                dr = [a - len(shape) for a in axes["drop"]] if axes["dropform"] == "neg" else list(axes["drop"])
+                kw["drop_axis"] = dr[0] if axes["dropform"] == "int" or (axes["dropform"] == "neg" and len(dr) == 1) else dr
+            if axes and axes["new"]:
+                kw["new_axis"] = axes["new"][0] if axes["newform"] == "int" else list(axes["new"])
             if case["api"] == "method":
                 r = dx.map_overlap(f, **kw)
+            elif case["api"] == "legacy":      # deprecated map_overlap(x, func, depth, boundary, trim)
+                r = da.map_overlap(dx, f, darg, barg, True, allow_rechunk=allow)
             else:
                 r = da.map_overlap(f, dx, **kw)
         else:
@@ -509,7 +759,19 @@ def _run_overlap(case, ctx):
             kw = {"depth": dl, "boundary": bl, "allow_rechunk": allow, "align_arrays": case["align"]}
             if case.get("passdtype"):
                 kw["dtype"] = expected.dtype
-            r = da.map_overlap(fn, dx, dy, **kw)
+            arrs, f = [dx, dy], fn
+            if "zchunks" in case:
+                arrs.append(da.from_array(z, chunks=A.chunks_of_desc(case["zchunks"])))
+                if case["listspec"]:
+                    dl.append(dl[1])
+                    bl.append(bl[1])
+            if case.get("swap"):               # the array of highest rank is no longer the first argument
+                arrs[0], arrs[1] = arrs[1], arrs[0]
+                f = Swapped(fn)
+                if case["listspec"]:
+                    dl[0], dl[1] = dl[1], dl[0]
+                    bl[0], bl[1] = bl[1], bl[0]
+            r = da.map_overlap(f, *arrs, **kw)
         return g, r
 
     try:
@@ -520,11 +782,18 @@ def _run_overlap(case, ctx):
         return
     except ValueError as ex:
         small_any = small
-        if kind == "map2":       # align_arrays refines both chunkings to the common breakpoints first
-            for ax, cy in enumerate(A.chunks_of_desc(case["ychunks"])):
-                cuts = sorted(set(np.cumsum(chunks[ax + off]).tolist()) | set(np.cumsum(cy).tolist()))
-                sizes = np.diff([0] + cuts)
+        if kind == "map2":       # align_arrays refines all chunkings to the common breakpoints first
+            others = [A.chunks_of_desc(case[k]) for k in ("ychunks", "zchunks") if k in case]
+            for ax in range(len(others[0])):
+                cuts = set(np.cumsum(chunks[ax + off]).tolist())
+                for o in others:
+                    cuts |= set(np.cumsum(o[ax]).tolist())
+                sizes = np.diff([0] + sorted(cuts))
                 small_any = small_any or _dmax(depth[ax + off]) > sizes.min()
+        if case.get("family") == "deep" and ("is larger than your array" in str(ex) or "allow_rechunk=True" in str(ex)):
+            ctx.count("depth_gt_axis_refused")        # documented: "overlapping depth ... larger than your array"
+            ctx.sample = {"kind": kind, "raised": "ValueError(depth > axis)"}
+            return
         if not allow and small_any and "allow_rechunk=True" in str(ex):
             ctx.count("norechunk_valueerror")     # documented behaviour
             ctx.sample = {"kind": kind, "allow_rechunk": False, "raised": "ValueError(depth > smallest chunk)"}
@@ -536,6 +805,12 @@ def _run_overlap(case, ctx):
         return
 
     ctx.count("ident_compared" if kind == "ident" else "map_compared")
+    if case.get("family"):
+        ctx.count("fam_" + case["family"])
+        if case["family"] == "axes":
+            for n, on in (("fam_drop_axis", case["axes"]["drop"]), ("fam_new_axis", case["axes"]["new"])):
+                if on:
+                    ctx.count(n)
     if kind != "ident" and not case.get("trim", True):
         ctx.count("trim_false")
         kind_l = kind + "&trim=False"
@@ -556,13 +831,14 @@ def _run_overlap(case, ctx):
                   "out_chunks": repr(r.chunks)[:80]}
     # ---- sibling facet: the same call with another depth / boundary must not share keys with this one ----------
     # ident: trim(overlap(x)) is x whatever the depth, so the observed pair is the two OVERLAPPED arrays
-    sib = _sibling_overlap(case, shape)
+    sib = None if case.get("family") in ("deep", "axes") else _sibling_overlap(case, shape)
     if sib is not None:
         param, depth2, boundary2 = sib
         srng = random.Random(0)
         ints = all(isinstance(d, int) for d in depth2)
         dform = case["dform"] if (case["dform"] != "int" or (ints and len(set(depth2)) == 1)) else "tuple"
         bform = case["bform"] if (case["bform"] != "scalar" or all(b == boundary2[0] for b in boundary2)) else "tuple"
+        bform = "tuple" if bform == "omit" else bform
         darg2, barg2 = _depth_arg(depth2, dform, srng), _boundary_arg(boundary2, bform, srng)
         if dform == "dict":
             darg2 = {ax: (d if isinstance(d, int) else tuple(d)) for ax, d in enumerate(depth2)}
@@ -660,6 +936,8 @@ def _run_swv(case, ctx):
         ctx.exception(ex, prefix="swv:" + feat)
         return
     ctx.count("swv_compared")
+    if case.get("family"):
+        ctx.count("fam_" + case["family"])
     m = compare_arrays(rv, expected, exact=True)
     if m:
         ctx.violation("swv:%s:%s" % (feat, m[0]), m[1], chunks=case["chunks"], window=repr(window), axis=repr(axis),
